@@ -223,7 +223,14 @@ func parseConfig(path string) error {
 		config.RootOfTrust = &ccpb.RootOfTrust{}
 	}
 	if config.Policy == nil {
-		config.Policy = &ccpb.Policy{HeaderPolicy: &ccpb.HeaderPolicy{}, TdQuoteBodyPolicy: &ccpb.TDQuoteBodyPolicy{}}
+		config.Policy = &ccpb.Policy{}
+	}
+	// A policy message may come without its sub-messages; populateConfig writes through them.
+	if config.Policy.HeaderPolicy == nil {
+		config.Policy.HeaderPolicy = &ccpb.HeaderPolicy{}
+	}
+	if config.Policy.TdQuoteBodyPolicy == nil {
+		config.Policy.TdQuoteBodyPolicy = &ccpb.TDQuoteBodyPolicy{}
 	}
 	return nil
 }
